@@ -42,6 +42,9 @@ func TestC18Backend(t *testing.T) {
 				cfg.CountSoftLimit, cfg.EvictFraction = 3, 0.5
 				cfg.EvictionStrategy = cache.EvictionStrategy(c.Pick("strategy", 3))
 				c.Class("eviction-enabled")
+			} else {
+				// no cleanup cycle ever runs here: how long ago an entry expired changes nothing about how a read of it counts
+				cfg.DeleteExpiredAfter = []time.Duration{farFuture, 0, time.Second, time.Nanosecond}[c.Pick("DeleteExpiredAfter", 4)]
 			}
 
 			be := newCaseBackend(c, kind, cfg)
